@@ -23,6 +23,10 @@ PARTIAL = [
     "left in the two incremental models (`Placer.dirty`), writeback re-synchronises them, and without a better leaf the object "
     "is equal to the one before the pass (`reorder_pass_from_dirty_models`). Not proved: that the C++ enumeration only "
     "evaluates leaves of that form — tied by the `val` line that follows every replayed reorder on explored runs",
+    "the evaluation functions of the object model (Placer.valueOnSwap / valueOnInsert: update-read-restore; Placer.dirty / restore / "
+    "reorderRun) are modelled from the source and proved to coincide with the pure acceptance rule and to restore the object; the "
+    "driver executes only Placer.init/step/value/orientKept — candidate evaluations are not logged by hook H3, so their tie to the "
+    "code is indirect (value() before and after every performed move is compared, and a performed move is one the scan accepted)",
     "that the optimiser's loops (runSwaps*, runShifts*, runReordering*) only perform the modelled primitive moves with "
     "candidates chosen by the modelled scan is tied by the hook-H3 history replay on explored runs (when the hook is compiled "
     "in), not proved for all inputs",
